@@ -34,6 +34,7 @@ func init() {
 		register(&Workload{Prop: prop, Variant: "failure-while-stopping", Horizon: 20 * time.Minute, MaxSteps: 200000, MaxG: 4096, Spin: 8000, PCTLen: 2000, Weight: 1, Body: func(r *R) { c08WhileStopping(r, prop) }})
 	}
 	register(&Workload{Prop: "C09", Variant: "zombie", Horizon: 20 * time.Minute, MaxSteps: 200000, MaxG: 4096, Spin: 8000, PCTLen: 2000, Weight: 2, Body: c09Zombie})
+	register(&Workload{Prop: "C09", Variant: "failure-during-stop", Horizon: 20 * time.Minute, MaxSteps: 200000, MaxG: 4096, Spin: 8000, PCTLen: 2000, Weight: 2, Body: c09FailureDuringStop})
 	register(&Workload{Prop: "C09", Variant: "double-failure", Horizon: 20 * time.Minute, MaxSteps: 200000, MaxG: 4096, Spin: 8000, PCTLen: 1500, Weight: 2, Body: c09DoubleFailure})
 	register(&Workload{Prop: "C09", Variant: "concurrent-failures", Horizon: 20 * time.Minute, MaxSteps: 300000, MaxG: 4096, Spin: 8000, PCTLen: 3000, Weight: 2, Body: c09Concurrent})
 }
@@ -699,7 +700,17 @@ func c09Zombie(r *R) {
 	if graceful {
 		dec = vivid.SupervisionDecisionGracefulRestart
 	}
-	m := w.NewMaker("sup", func(n int, ctx vivid.SupervisionContext) vivid.SupervisionDecision { return dec })
+	// a later failure of the zombie's sibling: under one-for-all the supervisor's answer (pause, then the decision) goes to
+	// the zombie as well, which must go on consuming its mail whatever that answer is
+	second := r.Chance(50)
+	oneForAll := r.Chance(50)
+	dec2 := []vivid.SupervisionDecision{vivid.SupervisionDecisionRestart, vivid.SupervisionDecisionResume, vivid.SupervisionDecisionGracefulRestart}[r.Choose(3)]
+	m := w.NewMaker("sup", func(n int, ctx vivid.SupervisionContext) vivid.SupervisionDecision {
+		if n > 0 {
+			return dec2
+		}
+		return dec
+	})
 	userCode := 0
 	var mu sync.Mutex
 	restarted := false
@@ -751,11 +762,15 @@ func c09Zombie(r *R) {
 		}
 	}
 	sup := &Spec{Name: "sup", Strategy: vivid.OneForOneStrategy(m), Children: []*Spec{z, sibling}}
+	if oneForAll {
+		sup.Strategy = vivid.OneForAllStrategy(m)
+	}
 	if _, err := w.Spawn(sup); err != nil {
 		r.Fail("C09/harness", "spawn: %v", err)
 		return
 	}
-	r.Sample(map[string]any{"failing_hook": []string{"PreRestart", "Restarted", "Prelaunch"}[hook], "graceful": graceful, "release": []string{"explicit kill", "parent termination"}[release], "foreign_timer": foreignTimer, "own_timer": ownTimer})
+	r.Sample(map[string]any{"failing_hook": []string{"PreRestart", "Restarted", "Prelaunch"}[hook], "graceful": graceful, "release": []string{"explicit kill", "parent termination"}[release], "foreign_timer": foreignTimer, "own_timer": ownTimer,
+		"one_for_all": oneForAll, "sibling_fails_later": second, "second_decision": fmt.Sprint(dec2)})
 	vsimrt.Settle()
 	zref := w.RefBy("create", nil, "/sup/z")
 	n := 1 + r.Choose(5)
@@ -837,6 +852,31 @@ func c09Zombie(r *R) {
 	if !ok {
 		r.Fail("C09/zombie-blocked-sibling", "the zombie's sibling no longer processes messages")
 		return
+	}
+	if second {
+		w.Tell(w.RefBy("create", nil, "/sup/sibling"), w.NewCmd("sibling-fails", 0, func(ctx vivid.ActorContext, p *Probe) { panic("the zombie's sibling fails") }))
+		vsimrt.SettleFor(300 * time.Millisecond)
+		for i := 0; i < 2; i++ {
+			w.Tell(zref, w.NewCmd("to-zombie-later", i, nil))
+		}
+		vsimrt.SettleFor(100 * time.Millisecond)
+		if r.Failed() {
+			return
+		}
+		vsimrt.Fence()
+		for _, ci := range actor.VsimContexts(actor.VsimSystem(w.Sys)) {
+			if ci.Path == "/sup/z" && ci.Paused {
+				r.Fail(fmt.Sprintf("C09/zombie-paused after-sibling-failure one-for-all=%v decision=%v", oneForAll, dec2), "after a later failure of its sibling (one-for-all: %v, decision %v) the zombie's mailbox is paused: it no longer consumes its mail and a graceful Kill never reaches it", oneForAll, dec2)
+				w.DumpNotes(300)
+				return
+			}
+			if ci.Path == "/sup/sibling" && (ci.Paused || ci.State != 0) {
+				r.Fail("C09/left-paused sibling-of-zombie", "the zombie's sibling failed and the supervisor decided %v, but it is left with state=%d paused=%v", dec2, ci.State, ci.Paused)
+				w.DumpNotes(300)
+				return
+			}
+		}
+		r.Count("zombie-then-sibling-failure")
 	}
 	// release
 	twice := false
@@ -1178,4 +1218,154 @@ func c09DoubleFailure(r *R) {
 		}
 	}
 	_ = w.Stop(30 * time.Second)
+}
+
+// c09FailureDuringStop: a subtree (or the whole system) is being stopped - gracefully, so the termination request queues
+// behind the mail the actors already hold, or immediately - while some of that mail fails. The supervisors, themselves on
+// their way out, are still consulted and may answer anything, including Escalate. Whatever they answer, the stop has to
+// come to an end: nobody in the subtree stays paused or half-stopped, and whoever survives outside it keeps working.
+func c09FailureDuringStop(r *R) {
+	w := newWorld(r, WorldOpt{})
+	if r.Failed() {
+		return
+	}
+	decs := []vivid.SupervisionDecision{vivid.SupervisionDecisionRestart, vivid.SupervisionDecisionGracefulRestart, vivid.SupervisionDecisionResume, vivid.SupervisionDecisionStop,
+		vivid.SupervisionDecisionGracefulStop, vivid.SupervisionDecisionEscalate, vivid.SupervisionDecisionEscalate}
+	used := map[string]bool{}
+	var umu sync.Mutex
+	mkS := func(name string, all bool) vivid.SupervisionStrategy {
+		m := w.NewMaker(name, func(n int, ctx vivid.SupervisionContext) vivid.SupervisionDecision {
+			d := decs[vsimrt.Choose(vsimrt.KWork, len(decs))]
+			umu.Lock()
+			used[name+":"+fmt.Sprint(d)] = true
+			umu.Unlock()
+			return d
+		})
+		if all {
+			return vivid.OneForAllStrategy(m)
+		}
+		return vivid.OneForOneStrategy(m)
+	}
+	oneForAll := r.Chance(40)
+	n := 1 + r.Choose(3)
+	sup := &Spec{Name: "sup", Strategy: mkS("sup", oneForAll)}
+	leaves := []string{}
+	for i := 0; i < n; i++ {
+		c := &Spec{Name: fmt.Sprintf("c%d", i)}
+		if r.Chance(40) {
+			c.Children = []*Spec{{Name: "g"}}
+			c.Strategy = mkS(c.Name, false)
+			leaves = append(leaves, "/top/sup/"+c.Name+"/g")
+		}
+		leaves = append(leaves, "/top/sup/"+c.Name)
+		sup.Children = append(sup.Children, c)
+	}
+	top := &Spec{Name: "top", Strategy: mkS("top", false), Children: []*Spec{sup}}
+	if _, err := w.Spawn(top); err != nil {
+		r.Fail("C09/harness", "spawn: %v", err)
+		return
+	}
+	vsimrt.Settle()
+	what := r.Choose(3) // 0 Kill(/top/sup), 1 Kill(/top), 2 ActorSystem.Stop
+	poison := r.Chance(75)
+	held := r.Chance(70)
+	gate := NewGate()
+	nFail := 1 + r.Choose(2)
+	var failing []string
+	for f := 0; f < nFail; f++ {
+		failing = append(failing, leaves[r.Choose(len(leaves))])
+	}
+	for _, p := range leaves {
+		ref := w.RefBy("create", nil, p)
+		if held {
+			w.Tell(ref, w.NewCmd("gate", 0, func(ctx vivid.ActorContext, p *Probe) { gate.Wait() }))
+		}
+		w.Tell(ref, w.NewCmd("pre", 0, nil))
+		for _, f := range failing {
+			if f == p {
+				w.Tell(ref, w.NewCmd("fail", 0, func(ctx vivid.ActorContext, p *Probe) { panic("failure while the subtree is being stopped") }))
+			}
+		}
+		w.Tell(ref, w.NewCmd("post", 0, nil))
+	}
+	target := []string{"/top/sup", "/top", "/"}[what]
+	r.Sample(map[string]any{"stopped": target, "graceful": poison, "held": held, "failing": failing, "one_for_all": oneForAll, "children": n})
+	var stopErr error
+	stopped := make(chan struct{})
+	switch what {
+	case 0, 1:
+		w.Sys.Kill(w.RefBy("create", nil, target), poison, "scripted stop")
+		close(stopped)
+	default:
+		vsimrt.Go("c09.stop", func() {
+			stopErr = w.Sys.Stop(20 * time.Second)
+			close(stopped)
+		})
+	}
+	if held {
+		vsimrt.SettleFor(time.Millisecond)
+		gate.Open()
+	}
+	r.Waiting("the stop issued while mail of the subtree fails")
+	vsimrt.Recv(stopped)
+	vsimrt.SettleFor(time.Second)
+	if r.Failed() {
+		return
+	}
+	umu.Lock()
+	var ds []string
+	for k := range used {
+		ds = append(ds, k)
+	}
+	umu.Unlock()
+	sort.Strings(ds)
+	desc := fmt.Sprintf("%s of %s (graceful: %v) while %v fail; supervisors answered %v", []string{"Kill", "Kill", "ActorSystem.Stop"}[what], target, poison, failing, ds)
+	if what == 2 {
+		if stopErr != nil {
+			r.Fail("C09/half-stopped failure-during-stop system-stop", "%s: Stop returned %v", desc, stopErr)
+			w.DumpNotes(400)
+			return
+		}
+		r.Count("failure-during-system-stop-checked")
+		return
+	}
+	vsimrt.Fence()
+	for _, ci := range actor.VsimContexts(actor.VsimSystem(w.Sys)) {
+		if ci.Path == "/" {
+			continue
+		}
+		if ci.Path == target || strings.HasPrefix(ci.Path, target+"/") {
+			r.Fail("C09/half-stopped failure-during-stop", "%s: %s is still registered (state=%d paused=%v zombie=%v, waits for %v)", desc, ci.Path, ci.State, ci.Paused, ci.Zombie, ci.Children)
+			w.DumpNotes(400)
+			return
+		}
+		if ci.State != 0 || ci.Paused {
+			r.Fail("C09/left-paused failure-during-stop", "%s: %s, outside the stopped subtree, is left with state=%d paused=%v", desc, ci.Path, ci.State, ci.Paused)
+			w.DumpNotes(400)
+			return
+		}
+	}
+	if what == 0 {
+		// /top outlives the stop of /top/sup unless the failure was escalated to the top, whose default is Stop
+		if _, err := w.Sys.FindActor(w.RefBy("create", nil, "/top").String()); err == nil {
+			pc := w.NewCmd("probe", 0, nil)
+			w.Tell(w.RefBy("create", nil, "/top"), pc)
+			vsimrt.SettleFor(100 * time.Millisecond)
+			ok := false
+			for _, e := range w.Events() {
+				if e.Kind == "Cmd" && e.ID == pc.ID {
+					ok = true
+				}
+			}
+			if !ok {
+				r.Fail("C09/probe-not-processed failure-during-stop", "%s: /top is alive but does not process a message sent afterwards", desc)
+				w.DumpNotes(400)
+				return
+			}
+		}
+	}
+	r.Count("failure-during-stop-checked")
+	if err := w.Stop(30 * time.Second); err != nil {
+		r.Fail("C09/half-stopped failure-during-stop final-system-stop", "%s: the system does not stop afterwards: %v", desc, err)
+	}
 }
